@@ -78,6 +78,23 @@ func formatAlias(alias pgsql.Identifier) string {
 	return `"` + strings.ReplaceAll(value, `"`, `""`) + `"`
 }
 
+// formatIdentifier renders an identifier outside an alias position. Identifier values also carry the wildcard and
+// dotted names, so besides the characters of a plain name the asterisk and the dot are written as they are. Any other
+// character can only come from a name chosen by the query author that a lowering reused as a column name; such a name
+// is written as a delimited identifier, exactly as formatAlias does.
+func formatIdentifier(identifier pgsql.Identifier) string {
+	for _, char := range identifier.String() {
+		switch {
+		case char == '_', char == '$', char == '.', char == '*':
+		case char >= 'a' && char <= 'z', char >= 'A' && char <= 'Z', char >= '0' && char <= '9':
+		default:
+			return formatAlias(identifier)
+		}
+	}
+
+	return identifier.String()
+}
+
 func formatSlice[T any, TS []T](builder *OutputBuilder, slice TS, dataType pgsql.DataType) error {
 	builder.Write("array [")
 
@@ -304,7 +321,7 @@ func formatNode(builder *OutputBuilder, rootExpr pgsql.SyntaxNode) error {
 			builder.Write(typedNextExpr.String())
 
 		case pgsql.Identifier:
-			builder.Write(typedNextExpr)
+			builder.Write(formatIdentifier(typedNextExpr))
 
 		case pgsql.CompoundIdentifier:
 			for idx := len(typedNextExpr) - 1; idx >= 0; idx-- {
